@@ -94,21 +94,9 @@ def region_of(idx, lengths, expected):
             if r < 0 or c < 0:
                 return 'ra[i,j]:negative-index'
             return 'regular'
-        if isinstance(c, slice) and not isinstance(r, int):
-            if c.start is not None and c.start < 0:
-                return 'ra[rows,cols]:cols.start<0'
-            if c.step is not None and c.step < 0:
-                return 'ra[rows,cols]:cols.step<0'
-            if isinstance(r, slice) and r.step is not None and r.step < 0:
-                return 'ra[rows,cols]:rows.step<0-with-column-slice'
-        if isinstance(r, slice) and r.start is not None and r.start < -n:
-            return 'ra[rows,...]:rows.start<-n_rows'
-        if isinstance(r, slice) and r.stop is not None and r.stop < -n:
-            return 'ra[rows,...]:rows.stop<-n_rows'
-        if isinstance(r, slice) and ((r.stop is not None and r.stop > n) or (r.start is not None and r.start > n)):
-            return 'ra[rows,...]:rows-bound-beyond-n_rows'
-        if not isinstance(expected, Exception) and expected[0] == 'ra':
-            if len(expected[1]) == 0 or any(len(x) == 0 for x in expected[1]):
+        if not isinstance(r, int) and not isinstance(expected, Exception):
+            res_rows = expected[1]
+            if len(res_rows) == 0 or (expected[0] == 'ra' and any(len(x) == 0 for x in res_rows)):
                 return 'ra[rows,cols]:result-has-an-empty-row-or-no-row'
         if isinstance(r, slice) and isinstance(c, (int, list)) and isinstance(expected, Exception):
             return 'ra[rows,col]:column-out-of-range-for-some-row'
